@@ -2,7 +2,6 @@ package ledgersim
 
 import (
 	"fmt"
-	"os"
 	"sort"
 	"strings"
 
@@ -45,8 +44,6 @@ var atomPoisons = []string{"overspend", "min-balance", "app-err", "asset-not-opt
 // evaluator-checked poisons: if the pipeline stops them before evaluation they are also pushed into TransactionGroup directly
 var atomDirect = map[string]bool{"wrong-group-id": true, "duplicate-member": true, "fee-shortfall": true, "lease-conflict": true, "overspend": true, "min-balance": true, "app-err": true,
 	"asset-not-opted-in": true, "wrong-authorizer": true, "inner-overspend": true, "box-unavailable": true, "schema-overflow": true}
-
-var dbgAtom = os.Getenv("VERIF_DBG_ATOM") != ""
 
 type atomMarker struct {
 	Kind string // "global" | "box"
@@ -569,11 +566,6 @@ func (o *atomObs) ExtraGroups(s *Sim, g *Gen, ev *eval.BlockEvaluator, hdr *book
 
 func (o *atomObs) GroupResult(s *Sim, ev *eval.BlockEvaluator, c Candidate, stage string, err error) {
 	info, ok := c.Info.(atomInfo)
-	if dbgAtom {
-		for _, t := range c.Txns {
-			s.log.Add("dbg cand %s %x", t.ID(), crypto.Hash(protocol.Encode(&t)))
-		}
-	}
 	if !ok || !c.MustReject {
 		o.lastFP = atomFingerprint(ev)
 		return
@@ -665,9 +657,6 @@ func truncate(s string, n int) string {
 }
 
 func (o *atomObs) BlockDone(s *Sim, prev, next *State, blk bookkeeping.Block, delta ledgercore.StateDelta) {
-	if dbgAtom {
-		s.log.Add("dbg hdr r%d expired=%v absent=%v proposer=%s payout=%d fees=%d txnroot=%s counter=%d", blk.Round(), blk.ExpiredParticipationAccounts, blk.AbsentParticipationAccounts, blk.Proposer(), blk.ProposerPayout().Raw, blk.FeesCollected.Raw, blk.TxnCommitments.NativeSha512_256Commitment, blk.TxnCounter)
-	}
 	groups, err := blk.DecodePaysetGroups()
 	if err != nil {
 		s.harness = "DecodePaysetGroups: " + err.Error()
